@@ -1390,7 +1390,7 @@ func C05() *check.Property {
 			"CombineLatestWithK/ZipWithK families subscribe K+1 distinct sources, build K+1-tuples from K+1 distinct variables and (CombineLatest) use only counter constants consistent with K+1 sources.",
 		NotDecided:  "the output assigned to each interleaving (ordering, completion timing, loss/duplication) for merge, concat, combine-latest, zip, race, buffer/window/sample/throttle-when, group-by, flat-map — in particular ZipAll's early outer completion (DESIGN.md section 7) is outside these rules.",
 		Assumptions: []string{"the destination's subscriber closes on the first terminal notification (C01) and its teardown releases the other sources (C03)"},
-		Floors:      map[string]int{"sites_checked": 140, "sites_of_multi_source_operators": 50, "sibling_releases_in_slots": 30, "complete_slots_checked": 120},
+		Floors:      map[string]int{"sites_checked": 140, "sites_of_multi_source_operators": 50, "sibling_releases_in_slots": 30, "complete_slots_checked": 120, "counting_complete_slots": 14, "counted_completes": 14},
 		Controls:    map[string]string{"zz_verif_controls_c05.go": roControl(controlsC05), "zz_verif_controls_c12.go": roControl(controlsC12), "zz_verif_controls_access.go": roControl(controlsAccessGuard), "zz_verif_controls_atomicptr.go": roControl(controlsAtomicPointee), "zz_verif_controls_c05c.go": roControl(controlsC05c + controlsC05d)},
 	}
 }
